@@ -461,13 +461,15 @@ def case_line(case):
 
 
 def _nbargs(a):
+    # int(str(.)): every coordinate is a NEW int object outside CPython's small-int cache (never identical with a shape entry)
+    a = [a[0]] + [int(str(v)) for v in a[1:]]
     if a[0] == "two":
-        return (int(a[1]), int(a[2]))
+        return (a[1], a[2])
     if a[0] == "tuple":
-        return ((int(a[1]), int(a[2])),)
+        return ((a[1], a[2]),)
     if a[0] == "one":
-        return (int(a[1]),)
-    return ((int(a[1]), int(a[2])), int(a[3]))
+        return (a[1],)
+    return ((a[1], a[2]), a[3])
 
 
 def _snapshot(ops):
@@ -626,6 +628,38 @@ def _asgs(rng, n):
     return [_Asg(rng) for _ in range(n)]
 
 
+def _vars_of(t, acc):
+    if isinstance(t, str):
+        if t[0] in "bi" and t[1:].isdigit() and t not in acc:
+            acc.append(t)
+    elif isinstance(t, list):
+        for x in t[1:]:
+            _vars_of(x, acc)
+    return acc
+
+
+def _corner_asgs(leaves):
+    """Deterministic total assignments for the aggregates, so that an item lost or duplicated at a particular position shows
+    whatever the PRNG does: with v the first / middle / last variable of the items (first-occurrence order) - only v true; all
+    true but v; every integer variable a different value; all different but v, which repeats another one."""
+    vs = []
+    for e in leaves:
+        _vars_of(e, vs)
+    if not vs:
+        return []
+    num = {v: 10 + 3 * k for k, v in enumerate(vs)}
+    out = [dict((v, True if v[0] == "b" else num[v]) for v in vs), dict((v, False if v[0] == "b" else num[v]) for v in vs)]
+    for p in sorted({0, len(vs) // 2, len(vs) - 1}):
+        sp = vs[p]
+        other = vs[0] if p else vs[-1]
+        out.append(dict((v, (v == sp) if v[0] == "b" else num[v]) for v in vs))
+        a = dict((v, (v != sp) if v[0] == "b" else num[v]) for v in vs)
+        if sp[0] == "i" and other[0] == "i":
+            a[sp] = num[other]
+        out.append(a)
+    return out
+
+
 def _ev(t, asg):
     from .exprio import ev, IllTyped
     try:
@@ -756,7 +790,7 @@ def oracle(case, out, rng):
             return None  # fold_or / fold_and may short-cut before reaching the item
         if err:
             return f"{t} raised {r[1]} on well-typed items"
-        for asg in _asgs(rng, 3):
+        for asg in _asgs(rng, 3) + _corner_asgs(leaves):
             vals = []
             for e in leaves:
                 k, v = _ev(e, asg)
@@ -767,7 +801,10 @@ def oracle(case, out, rng):
             want = {"ct": lambda: sum(1 for v in vals if v), "fo": lambda: any(vals), "fa": lambda: all(vals),
                     "ad": lambda: len(set(vals)) == len(vals)}[t]()
             if k != "v" or got != want or isinstance(got, bool) != isinstance(want, bool):
-                return f"{t} of items with values {vals} evaluates to {got} ({out[:100]}), expected {want}"
+                shown = vals if len(vals) <= 20 else (
+                    f"[{len(vals)} items, {sum(1 for v in vals if v is True)} of them true, the last five {vals[-5:]}]" if t != "ad"
+                    else f"[{len(vals)} items, {len(set(vals))} different values, the last five {vals[-5:]}]")
+                return f"{t} of items with values {shown} evaluates to {got} ({out[:100]}), expected {want}"
         return None
     if t == "call" and f[1] in ("fold_or", "fold_and", "count_true", "alldifferent"):
         if out == "absent" or ops[0][0] == "s":
@@ -1015,6 +1052,109 @@ def literal_nest_cases():
     return out
 
 
+# ---- large cases: a handful per run (the theorems hold for all sizes; the tie to the code must see big operands too)
+
+def _big_elems(kind, n, off=0, plain=False):
+    """n element trees of the kind: distinct variables (ids off..off+n-1), some compound (NOT / NEG) and some literal entries in
+    between; the last eight are always plain variables (an item dropped at the end must change the value)."""
+    out = []
+    for k in range(n):
+        v = ("b" if kind == "B" else "i") + str(off + k)
+        if not plain and k < n - 8:
+            if k % 7 == 3:
+                v = ["not", v] if kind == "B" else ["neg", v]
+            elif k % 11 == 5:
+                v = ("T" if k % 2 else "F") if kind == "B" else str(1000 + off + k)
+        out.append(v)
+    return out
+
+
+def _big_arr(kind, sh, off=0, plain=False):
+    els = _big_elems(kind, _size(sh), off, plain)
+    if len(sh) == 1:
+        return ["a1", kind] + els
+    return ["a2", kind, sh[0], sh[1]] + els
+
+
+def large_cases():
+    """Deterministic large instances of every aggregate / helper / elementwise form (each below ~1000 items):
+    aggregates as functions over big nests (12x12 array; 134 scalars; 8x16 array followed by nested literals; 129, 256, 257, 300
+    items; 128 expressions + one literal; deep nesting) and as array methods (15x15, 200, 1x200, 200x1); every infix operator, the
+    unary ones, some reflected dunders, then / cond (methods and functions) on 17x16, 1x300 and length-300 arrays (array-array,
+    array-scalar, scalar-array, mismatching big shapes); conv2d and four_neighbors(+indices) on 17x16, 1x300, 300x1."""
+    out = []
+    L = lambda v: ["L", v]
+    I = lambda *xs: ["I"] + list(xs)
+    for t in ("ct", "fo", "fa", "ad"):
+        K = "I" if t == "ad" else "B"
+        lit = (lambda j: L(["s", str(5000 + j)])) if t == "ad" else (lambda j: L(["s", "T" if j % 2 == 0 else "F"]))
+        nests = [
+            [L(_big_arr(K, (12, 12)))],
+            [L(["s", e]) for e in _big_elems(K, 134, plain=True)],
+            [L(_big_arr(K, (8, 16), plain=True)), I(lit(0), I(lit(1), lit(2))), lit(4)],
+            [I(L(_big_arr(K, (129,))))],
+            [L(_big_arr(K, (100,))), I(L(_big_arr(K, (3, 19), 100)), I(L(_big_arr(K, (100,), 157))))],
+            [L(_big_arr(K, (16, 16)))],
+            [L(["s", e]) for e in _big_elems(K, 128, plain=True)] + [lit(0)],
+            [L(_big_arr(K, (300,)))],
+            [I(I(I(L(_big_arr(K, (15, 15))))), lit(0)), L(["s", ("b" if K == "B" else "i") + "900"])],
+            [L(_big_arr(K, (1, 130))), L(_big_arr(K, (130, 1), 130))],
+        ]
+        for nest in nests:
+            out.append({"form": [t], "nest": nest})
+    for m in ("fold_or", "fold_and", "count_true", "alldifferent"):
+        K = "I" if m == "alldifferent" else "B"
+        for sh in ((15, 15), (200,), (1, 200), (200, 1), (12, 12)):
+            out.append({"form": ["call", m], "ops": [_big_arr(K, sh)]})
+    shapes = [(17, 16), (1, 300), (300,)]
+    for j, (sym, _) in enumerate(BINOPS):
+        K = NEEDS.get(sym) or ("B" if j % 2 else "I")
+        sc = ["s", ("b" if K == "B" else "i") + "2000"]
+        litv = ["s", "T" if K == "B" else "3"]
+        sh = shapes[j % 3]
+        out.append({"form": ["bin", sym], "ops": [_big_arr(K, sh), _big_arr(K, sh, 1000)]})
+        out.append({"form": ["bin", sym], "ops": [_big_arr(K, shapes[(j + 1) % 3]), sc if j % 2 else litv]})
+        out.append({"form": ["bin", sym], "ops": [litv if j % 2 else sc, _big_arr(K, shapes[(j + 2) % 3])]})
+    for sym, K in (("&", "B"), ("+", "I"), ("==", "I"), ("<", "I")):
+        out.append({"form": ["bin", sym], "ops": [_big_arr(K, (17, 16)), _big_arr(K, (16, 17), 1000)]})
+        out.append({"form": ["bin", sym], "ops": [_big_arr(K, (1, 300)), _big_arr(K, (300,), 1000)]})
+        out.append({"form": ["bin", sym], "ops": [_big_arr(K, (300,)), _big_arr(K, (299,), 1000)]})
+    for nm, K in (("invert", "B"), ("neg", "I")):
+        for sh in shapes:
+            out.append({"form": ["un", nm], "ops": [_big_arr(K, sh)]})
+    for m, K in (("__rsub__", "I"), ("__rand__", "B"), ("__radd__", "I"), ("__ge__", "I"), ("__xor__", "B")):
+        out.append({"form": ["call", m], "ops": [_big_arr(K, (17, 16)), _big_arr(K, (17, 16), 1000)]})
+        out.append({"form": ["call", m], "ops": [_big_arr(K, (300,)), ["s", ("b" if K == "B" else "i") + "2000"]]})
+    for sh in shapes:
+        bA, bB, bs = _big_arr("B", sh), _big_arr("B", sh, 1000), ["s", "b2000"]
+        iA, iB, is_ = _big_arr("I", sh), _big_arr("I", sh, 1000), ["s", "i2000"]
+        out.append({"form": ["call", "then"], "ops": [bA, bB]})
+        out.append({"form": ["call", "then"], "ops": [bA, bs]})
+        out.append({"form": ["thenF"], "ops": [bA, bB]})
+        out.append({"form": ["thenF"], "ops": [bs, bB]})
+        out.append({"form": ["call", "cond"], "ops": [bA, iA, iB]})
+        out.append({"form": ["call", "cond"], "ops": [bA, ["s", "2"], is_]})
+        out.append({"form": ["condF"], "ops": [bA, iA, iB]})
+        out.append({"form": ["condF"], "ops": [bs, iA, ["s", "1"]]})
+        out.append({"form": ["condF"], "ops": [bA, is_, iB]})
+    a = _big_arr("B", (17, 16))
+    for (h, w, op) in ((2, 2, "and"), (3, 3, "or"), (17, 16, "and"), (1, 1, "or"), (18, 1, "and"), (1, 16, "or"), (17, 1, "and")):
+        out.append({"form": ["conv", h, w, op], "ops": [a]})
+    a = _big_arr("B", (1, 300))
+    for (h, w, op) in ((1, 2, "or"), (1, 300, "and"), (1, 257, "or"), (2, 1, "and"), (1, 129, "and")):
+        out.append({"form": ["conv", h, w, op], "ops": [a]})
+    out.append({"form": ["conv", 257, 1, "or"], "ops": [_big_arr("B", (300, 1))]})
+    for (H, W), K, pts in (((17, 16), "B", [(0, 0), (16, 15), (8, 8), (16, 0), (0, 15), (17, 15), (16, 16)]),
+                           ((1, 300), "I", [(0, 0), (0, 299), (0, 298), (0, 256), (0, 257), (0, 258), (0, 300), (1, 299)]),
+                           ((300, 1), "B", [(299, 0), (298, 0), (257, 0), (256, 0), (0, 0), (300, 0)])):
+        a = _big_arr(K, (H, W), plain=True)
+        for k, (y, x) in enumerate(pts):
+            fm = ["two", y, x] if k % 2 == 0 else ["tuple", y, x]
+            out.append({"form": ["nb", fm], "ops": [a]})
+            out.append({"form": ["nbi", fm, H, W]})
+    return out
+
+
 def table_cases():
     """The forms of the regenerated table as ordinary cases (symbolic operands)."""
     out = []
@@ -1092,12 +1232,16 @@ def correspond(ctx):
         "every row of the regenerated table (8 receiver classes x dunders/then/cond/infix x 15 operand kinds) plus random "
         "cases from one PRNG: operands built through the real classes (arrays of variables / compound expressions / "
         "literals, shapes incl. empty, 0xN, 1xN; scalars; literals; None; foreign objects), mostly well-typed and "
+        "equal-shaped; ~200 deterministic LARGE cases (aggregates over 129..300 flattened items as functions over nests and as "
+        "methods of 15x15 / 200 / 1x200 arrays; every operator form, then/cond, conv2d, four_neighbors on 17x16, 1x300, 300x1, "
+        "length 300); aggregates also judged under deterministic corner assignments (only the first/middle/last item true, all "
+        "but it, all different, one repeat); small random cases: mostly well-typed and "
         "equal-shaped with a malformed stream (wrong kind / shape / junk); every operator form, then/cond (methods and "
         "functions), helpers over nested arguments, conv2d, four_neighbors(+indices); compared: live outcome (class, "
         "shape, every element tree, or exception type) vs the Lean model, and the live outcome vs the plain-Python "
         "pointwise oracle under random assignments; non-trivial+distinct = (form, operand kinds/shapes, outcome kind)")
     rng = ctx.rng
-    cases = table_cases() + literal_nest_cases() + gen_cases(rng, ctx.n(20000, 200000))
+    cases = table_cases() + literal_nest_cases() + large_cases() + gen_cases(rng, ctx.n(20000, 200000))
     outs = core.Driver().run([case_line(c) for c in cases])
     nt = len(all_forms())
     for idx, (c, m) in enumerate(zip(cases, outs)):
@@ -1119,9 +1263,30 @@ def correspond(ctx):
             ctx.disagree("oracle", case=describe(c)[:400], real=r[:300], why=why[:300])
 
 
+def _abbr(t, keep=10):
+    """Wire tree with long lists cut to their first `keep` and last 3 entries (for messages about large cases only)."""
+    if not isinstance(t, list):
+        return t
+    t = [_abbr(x, keep) for x in t]
+    if len(t) > keep + 6:
+        t = t[:keep] + [f"...{len(t) - keep - 3}-more..."] + t[-3:]
+    return t
+
+
 def _finding(case, out, why):
     sig = classify(case, why)
-    return Finding(sig, f"{describe(case)[:300]}  ->  {out[:200]} : {why[:300]}", {"case": case, "observed": out, "why": why})
+    d = describe(case)
+    if len(d) > 300:
+        d = sx(case["form"]) + " " + " ".join(sx(_abbr(x)) for x in (case["nest"] if "nest" in case else case.get("ops", [])))
+        if len(case.get("nest", [])) > 16:
+            d = sx(case["form"]) + " " + sx(_abbr(case["nest"]))[1:-1]
+        try:
+            out_s = sx(_abbr(core.parse_sx(out)))
+        except Exception:  # noqa: BLE001
+            out_s = out
+    else:
+        out_s = out
+    return Finding(sig, f"{d[:400]}  ->  {out_s[:200]} : {why[:300]}", {"case": case, "observed": out, "why": why})
 
 
 def search(ctx, why):
@@ -1129,7 +1294,7 @@ def search(ctx, why):
     import random
     rng = random.Random(f"C12-search-{ctx.seed}")
     found = {}
-    cases = table_cases() + literal_nest_cases() + gen_cases(rng, 8000)
+    cases = table_cases() + literal_nest_cases() + large_cases() + gen_cases(rng, 8000)
     for c in cases:
         try:
             r = run_case(c)
